@@ -98,6 +98,12 @@ func genDisconnect(prop string, seed uint64, tier string) *Scenario {
 		vc.CloseAtMs = 300 + ch.Intn(900)
 		vc.CloseMode = []string{"client", "client", "garbage", "server_reset"}[ch.Intn(4)]
 	}
+	if q := ssched.Sub(seed, "quit"); q.Intn(5) == 0 {
+		// drawn from a generator of its own: one victim ends its connection with the QUIT command
+		if vc := &body.Victims[q.Intn(len(body.Victims))]; vc.Chain == 0 {
+			vc.CloseMode = "quit"
+		}
+	}
 	raw, _ := json.Marshal(body)
 	k := genKnobs(r)
 	sc := &Scenario{Knobs: k, Sched: genSched(r, seed), Body: raw, MaxSimS: 6000}
@@ -360,6 +366,11 @@ func runDisconnect(w *World) {
 				switch {
 				case vc.Text && vc.CloseMode == "client":
 					tc.Close()
+				case vc.Text && vc.CloseMode == "quit":
+					// the QUIT command line: answered, then the server ends the connection; the client closes its side
+					_, _ = tc.conn.Write([]byte("*1\r\n$4\r\nQUIT\r\n"))
+					sleep(300 * time.Millisecond)
+					tc.Close()
 				case vc.Text && vc.CloseMode == "garbage":
 					_, _ = tc.conn.Write([]byte("\x00\xee junk that is not a command line\r\n"))
 				case vc.Text:
@@ -367,6 +378,13 @@ func runDisconnect(w *World) {
 						tc.conn.Peer.ResetNow()
 					}
 				case vc.CloseMode == "client":
+					c.Close()
+				case vc.CloseMode == "quit":
+					// the QUIT command: answered, then the server ends the connection; the client closes its side
+					quit := make([]byte, 64)
+					_ = protocol.NewQuitCommand().Encode(quit)
+					_, _ = c.conn.Write(quit)
+					sleep(300 * time.Millisecond)
 					c.Close()
 				case vc.CloseMode == "garbage":
 					junk := make([]byte, 64)
